@@ -26,7 +26,7 @@ TRUSTED = [
     "hand-written Gallina transcription (coq/orm/Lifecycle.v) of the lifecycle-relevant parts of orm/state.py "
     "and orm/session.py, unitofwork.finalize_flush_changes / was_already_deleted and "
     "persistence._organize_states_for_save; sets keyed by InstanceState are modelled as per-object flags; "
-    "pinned to the normalised source of 41 anchors and compared with the implementation on every run",
+    "pinned to the normalised source of 49 anchors and compared with the implementation on every run",
     "the documented transition table (coq/orm/LifecycleSpec.v doc_table) is hand-committed from "
     "doc/build/orm/session_events.rst; the event names and their from/to states are re-derived on every run "
     "from the SessionEvents docstrings (generated C35_gen.v)",
